@@ -13,6 +13,7 @@ JudgeForm(c, P, f) ==
       enc == Encode(t, d, names, o)
       nrm == Norm(t, d, names, o)
       jenc == JsonEnc(t, d, names, o, TRUE)
+      nrmj == NormJ(t, d, names, o)
       pf == IF f.file.ok THEN ParseFile(f.file.file, f.file.hs, f.file.inflate) ELSE [ok |-> FALSE, why |-> "notwritten"]
       tag(nm) == nm \o "." \o f.form
       gen0 == c.forms[1].gen
@@ -25,7 +26,7 @@ JudgeForm(c, P, f) ==
              IF ~jenc.ok THEN Cl(tag("C12.json"), "unspec")
              ELSE IF c.json_known THEN Cl(tag("C12.json"), "skip")          \* schema classes on which the JSON codec has a recorded finding (C15)
              ELSE Tri(tag("C12.json"), f.json.ok /\ Len(f.json.docs) = 1 /\ JEq(f.json.docs[1], jenc.j)
-                                       /\ f.jsonread.ok /\ Len(f.jsonread.recs) = 1 /\ VEqN(f.jsonread.recs[1], nrm.v)),
+                                       /\ f.jsonread.ok /\ Len(f.jsonread.recs) = 1 /\ nrmj.ok /\ VEqN(f.jsonread.recs[1], nrmj.v)),
              Tri(tag("C12.validate"), f.validate.ok /\ f.validate.v = [p |-> "bool", b |-> TRUE]),
              Tri(tag("C12.canon"), f.canon.ok /\ f.canon.text = CanonText(CanonTree(t))),
              \* data generation under a fixed state of the random source gives the same values under every form
